@@ -510,6 +510,9 @@ func (c *Cache[K, V]) applySieve(s *shard[K, V], cmd *writeCommand[K, V]) bool {
 	// insert: hold the candidate out of the table until admission decides its
 	// fate.
 	ghostHit := !warmup && s.sieve.ghost.contains(cmd.hash)
+	if verifEnabled {
+		verifEv(verifEvGhost, s.sieve.owner, verifB(ghostHit), verifB(warmup), nil)
+	}
 	item := c.newItem(cmd)
 	item.unpublished = true
 	if !warmup {
